@@ -14,6 +14,7 @@ import (
 	"strconv"
 	"strings"
 	"sync"
+	"syscall"
 	"time"
 )
 
@@ -224,19 +225,46 @@ func obsValidateRaw(list []string) (o Obs) {
 
 type outCapture struct {
 	oldOut, oldErr *os.File
+	saved1, saved2 int
 	r, w           *os.File
 	done           chan int64
+	buf            capBuf
 }
 
+// capBuf keeps the first 256 KiB of what was written while the capture was on.
+type capBuf struct{ b []byte }
+
+func (c *capBuf) Write(p []byte) (int, error) {
+	if room := 256<<10 - len(c.b); room > 0 {
+		c.b = append(c.b, p[:min(room, len(p))]...)
+	}
+	return len(p), nil
+}
+
+// The capture works on the file DESCRIPTORS 1 and 2, not only on the os.Stdout / os.Stderr variables: the builtin
+// println, the log package's default logger (which keeps the *os.File it saw at start-up) and direct writes would
+// pass a capture that only re-assigns the variables.
 func startCapture() (*outCapture, error) {
 	r, w, err := os.Pipe()
 	if err != nil {
 		return nil, err
 	}
 	c := &outCapture{oldOut: os.Stdout, oldErr: os.Stderr, r: r, w: w, done: make(chan int64, 1)}
+	if c.saved1, err = syscall.Dup(1); err != nil {
+		return nil, err
+	}
+	if c.saved2, err = syscall.Dup(2); err != nil {
+		return nil, err
+	}
+	if err = syscall.Dup3(int(w.Fd()), 1, 0); err != nil {
+		return nil, err
+	}
+	if err = syscall.Dup3(int(w.Fd()), 2, 0); err != nil {
+		return nil, err
+	}
 	os.Stdout, os.Stderr = w, w
 	go func() {
-		n, _ := io.Copy(io.Discard, r)
+		n, _ := io.Copy(&c.buf, r)
 		c.done <- n
 	}()
 	return c, nil
@@ -244,9 +272,21 @@ func startCapture() (*outCapture, error) {
 
 func (c *outCapture) stop() int64 {
 	os.Stdout, os.Stderr = c.oldOut, c.oldErr
+	syscall.Dup3(c.saved1, 1, 0)
+	syscall.Dup3(c.saved2, 2, 0)
+	syscall.Close(c.saved1)
+	syscall.Close(c.saved2)
 	c.w.Close()
 	n := <-c.done
 	c.r.Close()
+	// what was captured is passed on to the real stderr afterwards (the race detector's reports and the runtime's
+	// fatal errors are read there by ./check); reports of the race detector are not output of the library
+	if len(c.buf.b) > 0 {
+		os.Stderr.Write(c.buf.b)
+		if bytes.Contains(c.buf.b, []byte("WARNING: DATA RACE")) {
+			return 0
+		}
+	}
 	return n
 }
 
